@@ -213,9 +213,147 @@ fn core_op(r: &Rec) -> Vec<Vec<i128>> {
     })
 }
 
+// ------------------------------------------------------------------------------------------------------------------
+// Part 2, level 2: real keys.  The secret, the ciphertexts and every key-dependent result are OUTPUTS of the record
+// (the oracle decrypts by itself with the exact products of the model).
+//   header: be n rank ab rb a_k b_k res_k cnv mode | kb dsize dnum k_tsk relb rel_k | seed
+//   5201 tensor (mode 0 apply, 1 add_assign, 2 square) + glwe_tensor_decrypt + glwe_tensor_relinearize + glwe_decrypt
+//        vs = [pt_a limbs, pt_b limbs, prior tensor]      outs = [sk, a.data, b.data, tensor.data, pt_tensor, relin.data, pt_relin, flags]
+//   5202 mul_plain (mode 0) / mul_plain_assign (mode 1) + glwe_decrypt
+//   5203 mul_const (mode 0) / mul_const_assign (mode 1) + glwe_decrypt
+//        vs = [pt_a limbs, b (plaintext limbs | constant limbs), prior res]   outs = [sk, a.data, res.data, pt_res, flags]
+// ------------------------------------------------------------------------------------------------------------------
+fn l2_op(r: &Rec) -> Vec<Vec<i128>> {
+    let p = &r.ps;
+    let u = |i: usize| p[i] as usize;
+    let (be, n, rank) = (p[0], u(1), u(2));
+    let (ab, rb) = (u(3), u(4));
+    let (a_k, b_k, res_k, cnv, mode) = (u(5), u(6), u(7), u(8), u(9));
+    let (kb, dsize, dnum, k_tsk, relb, rel_k) = (u(10), u(11), u(12), u(13), u(14), u(15));
+    let seed = p[16] as u64;
+    let code = r.code;
+    let d = |x: usize| -> u32 { x as u32 };
+    with_be!(be, BE, {
+        let m = module::<BE>(n);
+        let mut g = Rng::new(seed);
+        let xs_seed = g.bytes32();
+        let (mut source_xs, mut source_xe, mut source_xa) = (Source::new(xs_seed), Source::new(g.bytes32()), Source::new(g.bytes32()));
+        // secret (and an identical copy whose coefficients can be read)
+        let mut sk = GLWESecret::alloc(d(n).into(), d(rank).into());
+        let mut sk_copy = ScalarZnx::alloc(n, rank);
+        {
+            let mut s2 = Source::new(xs_seed);
+            sk.fill_ternary_prob(0.5, &mut source_xs);
+            for i in 0..rank { sk_copy.fill_ternary_prob(i, 0.5, &mut s2); }
+        }
+        let sk_words: Vec<i128> = to128(sk_copy.raw());
+        let mut sk_dft = m.glwe_secret_prepared_alloc_from_infos(&sk);
+        m.glwe_secret_prepare(&mut sk_dft, &sk);
+        let mut big_sc = scratch_filled::<BE>(1 << 22, 0);
+
+        let in_a = EncryptionLayout::new_from_default_sigma(GLWELayout { n: d(n).into(), base2k: d(ab).into(), k: d(a_k).into(), rank: d(rank).into() }).unwrap();
+        let in_b = EncryptionLayout::new_from_default_sigma(GLWELayout { n: d(n).into(), base2k: d(ab).into(), k: d(b_k).into(), rank: d(rank).into() }).unwrap();
+        let mut pt_a = GLWEPlaintext::alloc(d(n).into(), d(ab).into(), d(a_k).into());
+        fill_raw(pt_a.data_mut().raw_mut(), &r.vs[0]);
+        let mut a = GLWE::alloc(d(n).into(), d(ab).into(), d(a_k).into(), d(rank).into());
+        m.glwe_encrypt_sk(&mut a, &pt_a, &sk_dft, &in_a, &mut source_xe, &mut source_xa, big_sc.borrow());
+        let a_words = to128(a.data().raw());
+
+        // three runs: scratch filled with two different garbage words, then with zeros; the reported output is the
+        // zero-scratch one, the flag says whether all three agree
+        let run_twice = |f: &mut dyn FnMut(i64) -> Vec<i64>| -> (Vec<i64>, bool) {
+            let mut gg = Rng::new(seed ^ 0x5EED);
+            let o1 = f(gg.next() as i64);
+            let o2 = f(gg.next() as i64);
+            let o3 = f(0);
+            let same = o1 == o2 && o2 == o3;
+            (o3, same)
+        };
+
+        match code {
+            5201 => {
+                let mut b = GLWE::alloc(d(n).into(), d(ab).into(), d(b_k).into(), d(rank).into());
+                if mode != 2 {
+                    let mut pt_b = GLWEPlaintext::alloc(d(n).into(), d(ab).into(), d(b_k).into());
+                    fill_raw(pt_b.data_mut().raw_mut(), &r.vs[1]);
+                    m.glwe_encrypt_sk(&mut b, &pt_b, &sk_dft, &in_b, &mut source_xe, &mut source_xa, big_sc.borrow());
+                }
+                let b_words = if mode == 2 { vec![] } else { to128(b.data().raw()) };
+                let mut res = GLWETensor::alloc(d(n).into(), d(rb).into(), d(res_k).into(), d(rank).into());
+                let (t_words, same) = run_twice(&mut |fill: i64| {
+                    fill_raw(res.data_mut().raw_mut(), &r.vs[2]);
+                    if mode == 2 {
+                        let mut sc = scratch_filled::<BE>(m.glwe_tensor_square_apply_tmp_bytes(&res, &a) + SLACK, fill);
+                        m.glwe_tensor_square_apply(cnv, &mut res, &a, a_k, sc.borrow());
+                    } else {
+                        let mut sc = scratch_filled::<BE>(m.glwe_tensor_apply_tmp_bytes(&res, &a, &b) + SLACK, fill);
+                        if mode == 0 { m.glwe_tensor_apply(cnv, &mut res, &a, a_k, &b, b_k, sc.borrow()); }
+                        else { m.glwe_tensor_apply_add_assign(cnv, &mut res, &a, a_k, &b, b_k, sc.borrow()); }
+                    }
+                    res.data().raw().to_vec()
+                });
+                // decrypt the tensor with (1, s, s (x) s)
+                let mut sk_tensor = GLWESecretTensor::alloc(d(n).into(), d(rank).into());
+                m.glwe_secret_tensor_prepare(&mut sk_tensor, &sk, big_sc.borrow());
+                let mut sk_tensor_prep = m.glwe_secret_tensor_prepared_alloc(d(rank).into());
+                m.glwe_secret_tensor_prepared_prepare(&mut sk_tensor_prep, &sk_tensor);
+                let mut pt_t = GLWEPlaintext::alloc(d(n).into(), d(rb).into(), d(res_k).into());
+                m.glwe_tensor_decrypt(&res, &mut pt_t, &sk_dft, &sk_tensor_prep, big_sc.borrow());
+                // relinearise
+                let tsk_infos = EncryptionLayout::new_from_default_sigma(GLWETensorKeyLayout {
+                    n: d(n).into(), base2k: d(kb).into(), k: d(k_tsk).into(), rank: d(rank).into(), dnum: d(dnum).into(), dsize: Dsize(d(dsize)),
+                }).unwrap();
+                let mut tsk = GLWETensorKey::alloc_from_infos(&tsk_infos);
+                m.glwe_tensor_key_encrypt_sk(&mut tsk, &sk, &tsk_infos, &mut source_xe, &mut source_xa, big_sc.borrow());
+                let mut tsk_prep = m.alloc_tensor_key_prepared_from_infos(&tsk_infos);
+                m.prepare_tensor_key(&mut tsk_prep, &tsk, big_sc.borrow());
+                let mut relin = GLWE::alloc(d(n).into(), d(relb).into(), d(rel_k).into(), d(rank).into());
+                let (rl_words, same2) = run_twice(&mut |fill: i64| {
+                    for x in relin.data_mut().raw_mut().iter_mut() { *x = fill; }
+                    let mut sc = scratch_filled::<BE>(m.glwe_tensor_relinearize_tmp_bytes(&relin, &res, &tsk_infos) + SLACK, fill);
+                    m.glwe_tensor_relinearize(&mut relin, &res, &tsk_prep, tsk_prep.size(), sc.borrow());
+                    relin.data().raw().to_vec()
+                });
+                let mut pt_r = GLWEPlaintext::alloc(d(n).into(), d(relb).into(), d(rel_k).into());
+                m.glwe_decrypt(&relin, &mut pt_r, &sk_dft, big_sc.borrow());
+                vec![sk_words, a_words, b_words, to128(&t_words), to128(pt_t.data().raw()), to128(&rl_words), to128(pt_r.data().raw()),
+                     vec![same as i128, same2 as i128]]
+            }
+            5202 | 5203 => {
+                let assign = mode == 1;
+                let (o_b, o_k) = if assign { (ab, a_k) } else { (rb, res_k) };
+                let mut res = GLWE::alloc(d(n).into(), d(o_b).into(), d(o_k).into(), d(rank).into());
+                let mut pt_b = GLWEPlaintext::alloc(d(n).into(), d(ab).into(), d(b_k).into());
+                let bconst = v64(&r.vs[1]);
+                if code == 5202 { fill_raw(pt_b.data_mut().raw_mut(), &r.vs[1]); }
+                let (r_words, same) = run_twice(&mut |fill: i64| {
+                    if assign { res.data_mut().raw_mut().copy_from_slice(a.data().raw()); } else { fill_raw(res.data_mut().raw_mut(), &r.vs[2]); }
+                    match (code, assign) {
+                        (5202, false) => { let mut sc = scratch_filled::<BE>(m.glwe_mul_plain_tmp_bytes(&res, &a, &pt_b) + SLACK, fill);
+                                           m.glwe_mul_plain(cnv, &mut res, &a, a_k, &pt_b, b_k, sc.borrow()); }
+                        (5202, true) => { let bytes = { let rr = &res; m.glwe_mul_plain_tmp_bytes(rr, rr, &pt_b) };
+                                          let mut sc = scratch_filled::<BE>(bytes + SLACK, fill);
+                                          m.glwe_mul_plain_assign(cnv, &mut res, a_k, &pt_b, b_k, sc.borrow()); }
+                        (_, false) => { let mut sc = scratch_filled::<BE>(m.glwe_mul_const_tmp_bytes(&res, &a, bconst.len()) + SLACK, fill);
+                                        m.glwe_mul_const(cnv, &mut res, &a, &bconst, sc.borrow()); }
+                        (_, true) => { let bytes = { let rr = &res; m.glwe_mul_const_tmp_bytes(rr, rr, bconst.len()) };
+                                       let mut sc = scratch_filled::<BE>(bytes + SLACK, fill);
+                                       m.glwe_mul_const_assign(cnv, &mut res, &bconst, sc.borrow()); }
+                    }
+                    res.data().raw().to_vec()
+                });
+                let mut pt_r = GLWEPlaintext::alloc(d(n).into(), d(o_b).into(), d(o_k).into());
+                m.glwe_decrypt(&res, &mut pt_r, &sk_dft, big_sc.borrow());
+                vec![sk_words, a_words, to128(&r_words), to128(pt_r.data().raw()), vec![same as i128]]
+            }
+            _ => panic!("c05: unknown op {}", code),
+        }
+    })
+}
+
 pub fn exec(r: &Rec) -> Out {
     let r2 = r.clone();
-    guard(move || if r2.code < 5100 { hal_op(&r2) } else { core_op(&r2) })
+    guard(move || if r2.code < 5100 { hal_op(&r2) } else if r2.code < 5200 { core_op(&r2) } else { l2_op(&r2) })
 }
 
 /// values with |x| < 2^bits, in classes: random, extreme with aligned signs, alternating, sparse
@@ -345,9 +483,60 @@ fn gen_core(tier: &str, rng: &mut Rng, out: &mut Vec<Rec>) {
     }
 }
 
+fn gen_l2(tier: &str, rng: &mut Rng, out: &mut Vec<Rec>) {
+    let reps = if tier == "thorough" { 900 } else { 130 };
+    let codes = [5201i64, 5201, 5201, 5202, 5203, 5201, 5202, 5203];
+    for it in 0..reps {
+        let code = codes[it % codes.len()];
+        let be = rng.range(1, 4) as i128;
+        let fft = be <= 2;
+        let logn = match rng.below(8) { 0 => 5, 1 | 2 => 4, _ => 3 };
+        let n = 1usize << logn;
+        let rank = rng.range(1, 2) as usize;
+        let mode = if code == 5201 { rng.below(3) as usize } else { rng.below(2) as usize };
+        let asz = rng.range(2, 4) as usize;
+        let bsz = if code == 5201 && mode == 2 { asz } else { rng.range(1, 3) as usize };
+        let terms = asz.min(bsz) as u32;
+        let lt = 32 - terms.leading_zeros();
+        let ab_max: usize = if fft { ((50 - 2 - logn as u32 - lt) / 2 + 1) as usize } else { 30 };
+        let ab = rng.range(8, ab_max as i64) as usize;
+        let assign = code != 5201 && mode == 1;
+        let rb = if assign || rng.below(3) == 0 { ab } else { rng.range(6.max(ab as i64 - 4), (ab as i64 + 4).min(if fft { 22 } else { 34 })) as usize };
+        let a_k = pick_k(rng, asz, ab);
+        let b_k = if code == 5201 && mode == 2 { a_k } else { pick_k(rng, bsz, ab) };
+        let full_bits = (asz + bsz) * ab;
+        let res_k = if assign { a_k } else { match rng.below(3) { 0 => full_bits + rng.range(0, rb as i64) as usize, 1 => a_k.max(rb), _ => rng.range(rb as i64, full_bits as i64) as usize } };
+        let rsz = dceil(res_k, rb);
+        // offsets: the product of two torus elements needs cnv >= the message scale to be visible; every value is legal
+        let cnv = match rng.below(6) { 0 => 0, 1 => ab, 2 => 2 * ab, 3 => rng.range(0, ab as i64) as usize, _ => rng.range(0, (bsz * ab + ab) as i64) as usize };
+        // relinearisation key: radix kb (equal to / different from the tensor's), dsize 1..3, enough digits for the tensor
+        let kb = if rng.below(2) == 0 { rb } else { rng.range(6, if fft { 16 } else { 24 }) as usize };
+        let kb = if fft { kb.min(16) } else { kb };
+        let dsize = rng.range(1, 3) as usize;
+        let tk = rsz * rb;
+        let dnum = match rng.below(4) { 0 => dceil(tk, kb * dsize).saturating_sub(1).max(1), _ => dceil(tk, kb * dsize) };
+        let k_tsk = tk + kb * dsize;
+        let relb = if rng.below(2) == 0 { kb } else { rb };
+        let rel_k = match rng.below(3) { 0 => tk, 1 => tk + relb, _ => rng.range(relb as i64, tk as i64) as usize };
+        let cols = rank + 1;
+        let tcols = cols * (cols + 1) / 2;
+        let seed = rng.next() >> 1;
+        let ps: Vec<i128> = vec![be, n as i128, rank as i128, ab as i128, rb as i128, a_k as i128, b_k as i128, res_k as i128, cnv as i128, mode as i128,
+            kb as i128, dsize as i128, dnum as i128, k_tsk as i128, relb as i128, rel_k as i128, seed as i128];
+        let pt_a = digits(rng, n * asz, ab as u32);
+        let vs = match code {
+            5201 => vec![pt_a, if mode == 2 { vec![] } else { digits(rng, n * bsz, ab as u32) }, digits(rng, n * tcols * rsz, rb as u32)],
+            5202 => vec![pt_a, digits(rng, n * bsz, ab as u32), if assign { vec![] } else { digits(rng, n * cols * rsz, rb as u32) }],
+            _ => vec![pt_a, digits(rng, bsz, ab as u32), if assign { vec![] } else { digits(rng, n * cols * rsz, rb as u32) }],
+        };
+        out.push(Rec::new(code, ps, vs));
+    }
+}
+
 pub fn generate(tier: &str, seed: u64) -> Vec<Rec> {
     let mut rng = Rng::new(seed);
     let mut out = Vec::new();
+    if let Some(t) = tier.strip_prefix("l2-") { gen_l2(t, &mut rng, &mut out); return out; }
     gen_hal(tier, &mut rng, &mut out);
     gen_core(tier, &mut rng, &mut out);
     out
